@@ -173,6 +173,12 @@ EOF_TAILS = ['', ' ', '\n', '\r\n', '\t', ' // end', '// end', '//', ' // end\n'
              '\n\n// end\n\n', ' // a\n// b', ' // a\n// b\n', '\r\n// end\r\n\r\n', '// end\n ', '// end\n\t\n']
 
 
+def driver_safe(src):
+    """The replay driver reads its cases from one stream, separated by a line holding only `%%%%`: a text with such a line in it (`%%` `%%` glued, alone on a
+    line) cannot be handed over intact -- the generators re-draw their separators instead of producing one."""
+    return re.search(r'\n%%%%(\n|$)', src) is None
+
+
 def glue_safe(a, b):
     """May token texts a and b be written without anything between them?  Yes iff the reference lexer reads a+b as exactly a, b
     (and not across `true` / `false` / `NULL` followed by a word character, which the reference does not define)."""
@@ -187,21 +193,24 @@ def glue_safe(a, b):
 
 def lay_out(rnd, toks, glue):
     """Text of the token sequence with random separators; with glue=True separators may be empty where that is safe."""
-    src, starts = rnd.choice(['', '', ' ', '\n', '// head\n', '\r\n', '\t']), []
-    for k, t in enumerate(toks):
-        if k > 0:
-            if glue and rnd.random() < 0.5 and glue_safe(toks[k - 1], t):
-                sep = ''
-            else:
-                sep = rnd.choice(SEPS)
-                if sep.startswith('/') and toks[k - 1].endswith('/'):
-                    sep = ' ' + sep       # `/` directly followed by `//` would read as a comment start one character early
-            src += sep
-        starts.append(len(src))
-        src += t
-    tail = rnd.choice(EOF_TAILS)
-    if tail.startswith('/') and toks and toks[-1].endswith('/'):
-        tail = ' ' + tail
+    for attempt in range(50):
+        src, starts = rnd.choice(['', '', ' ', '\n', '// head\n', '\r\n', '\t']), []
+        for k, t in enumerate(toks):
+            if k > 0:
+                if glue and rnd.random() < 0.5 and glue_safe(toks[k - 1], t):
+                    sep = ''
+                else:
+                    sep = rnd.choice(SEPS) if attempt < 49 else ' '
+                    if sep.startswith('/') and toks[k - 1].endswith('/'):
+                        sep = ' ' + sep       # `/` directly followed by `//` would read as a comment start one character early
+                src += sep
+            starts.append(len(src))
+            src += t
+        tail = rnd.choice(EOF_TAILS) if attempt < 49 else ''
+        if tail.startswith('/') and toks and toks[-1].endswith('/'):
+            tail = ' ' + tail
+        if driver_safe(src + tail):
+            break
     return src + tail, starts
 
 
@@ -282,26 +291,29 @@ def relayout(rnd, src):
             texts.append(f)
         else:
             texts.append(f)
-    out = rnd.choice(['', '\n', '// relaid\n', '\r\n'])
-    for k, t in enumerate(texts):
-        if k > 0:
-            a, b = texts[k - 1], t
-            ok = False
-            if rnd.random() < 0.4:
-                try:
-                    r = ref_lex(a + b)
-                    ok = len(r) == 2 and r[1][2] == len(a) and not (a in ('true', 'false', 'NULL') and b[0] in WORD_CONT)
-                except LexError:
-                    ok = False
-            if not ok:
-                sep = rnd.choice(SEPS)
-                if sep.startswith('/') and a.endswith('/'):
-                    sep = ' ' + sep
-                out += sep
-        out += t
-    tail = rnd.choice(EOF_TAILS)
-    if tail.startswith('/') and texts and texts[-1].endswith('/'):
-        tail = ' ' + tail
+    for attempt in range(50):
+        out = rnd.choice(['', '\n', '// relaid\n', '\r\n'])
+        for k, t in enumerate(texts):
+            if k > 0:
+                a, b = texts[k - 1], t
+                ok = False
+                if rnd.random() < 0.4:
+                    try:
+                        r = ref_lex(a + b)
+                        ok = len(r) == 2 and r[1][2] == len(a) and not (a in ('true', 'false', 'NULL') and b[0] in WORD_CONT)
+                    except LexError:
+                        ok = False
+                if not ok:
+                    sep = rnd.choice(SEPS)
+                    if sep.startswith('/') and a.endswith('/'):
+                        sep = ' ' + sep
+                    out += sep
+            out += t
+        tail = rnd.choice(EOF_TAILS)
+        if tail.startswith('/') and texts and texts[-1].endswith('/'):
+            tail = ' ' + tail
+        if driver_safe(out + tail):
+            break
     return out + tail, texts
 
 
@@ -328,10 +340,14 @@ def standin_layout_ast(tier, seed):
             ref_lex(p)
         except LexError:
             continue
+        if not driver_safe(p):
+            continue
         cases.append(p)
         meta.append(None)
         for _ in range(lays):
             q, _texts = relayout(rnd, p)
+            if not driver_safe(q):
+                q = p
             cases.append(q)
             meta.append(p)
     r_tok, r_ast = C4.par([lambda: C4.run_cases('tokens', cases), lambda: C4.run_cases_sharded('ast', cases, 3 if tier == 'thorough' else 2)])
@@ -367,7 +383,7 @@ def standin_true_positions(tier, seed):
     bound = ('%d seeded sequences of 1..25 tokens, weighted towards multi-byte and multi-line string literals, separated by tabs / CR / CRLF / LF / FF / VT / comments with '
              'multi-byte text and followed by one of %d end-of-text tails: every token, the END token included, at its true line, byte column and byte offset' % (n, len(EOF_TAILS)))
     cases, metas = [], []
-    for _ in range(n):
+    while len(cases) < n:
         toks = [rnd.choice(heavy_vocab) for _ in range(rnd.randint(1, 25))]
         src, starts = rnd.choice(['', '\n', '\r\n', '// é\n', '\t']), []
         for k, t in enumerate(toks):
@@ -380,6 +396,8 @@ def standin_true_positions(tier, seed):
             src += t
         tail = rnd.choice(EOF_TAILS)
         src += (' ' + tail) if (tail.startswith('/') and toks[-1].endswith('/')) else tail
+        if not driver_safe(src):
+            continue
         cases.append(src)
         metas.append((toks, starts))
     for t in heavy_vocab:
@@ -457,7 +475,10 @@ def standin_vocab_pairs(tier, seed):
                 starts.append(len(src))
                 src += t
             tail = rnd.choice(EOF_TAILS)
-            src += (' ' + tail) if (tail.startswith('/') and s[-1].endswith('/')) else tail
+            tail = (' ' + tail) if (tail.startswith('/') and s[-1].endswith('/')) else tail
+            src += tail if driver_safe(src + tail) else ''
+            if not driver_safe(src):
+                continue
             cases.append(src)
             metas.append((list(s), starts))
     bound = ('%s pairs of tokens from the %d-token vocabulary + %d seeded triples, each written with a random separator and, where the reference lexer reads the glued text as '
@@ -516,7 +537,7 @@ def standin_string_literals(tier, seed):
     rnd = random.Random(seed)
     n = 8000 if tier == 'thorough' else 400
     lits = list(FIXED_STRINGS) + [gen_string(rnd) for _ in range(n)]
-    lits = [(s, v) for s, v in lits if '\x1e' not in s and '\x1f' not in s]
+    lits = [(s, v) for s, v in lits if '\x1e' not in s and '\x1f' not in s and driver_safe(s) and '\n%%%%' not in s]
     bound = ('%d fixed + %d seeded string literals of 0..24 pieces over arbitrary Unicode (1-4 byte characters, combining marks, BOM, controls, raw LF / CRLF / tab) with every '
              'escape form (\\n \\r \\t \\" \\\\, backslash + any other character, backslash + newline): the token fragment, and the value written by `out json` through the real '
              'binary, equal the decoded text; each literal also as the last token of a text before an end-of-text tail (END token just past the last character)' % (len(FIXED_STRINGS), n))
